@@ -6,10 +6,13 @@
 package main
 
 import (
+	"bufio"
 	"bytes"
 	"fmt"
+	"net"
 	"os"
 	"path/filepath"
+	"strings"
 	"sync"
 	"time"
 
@@ -405,6 +408,25 @@ func main() {
 	vk.Par(len(wsl), 16, func(i int) { checkWs(r, wsl[i]) })
 	r.Cov("ws_header_lengths", len(wsl))
 
+	// lal's HTTP-FLV pull client as the reader: a valid response (status line, headers of every total
+	// length 60..600 so that every internal buffer boundary falls on every byte of the FLV header and of
+	// the first tags, FLV header, five tags) arriving in one piece and split in two at every offset around
+	// the start of the body
+	nPull := 0
+	for hl := 60; hl <= 600; hl++ {
+		cuts := []int{0}
+		if hl%16 == 0 || !r.Quick() {
+			for c := hl - 2; c <= hl+30; c++ {
+				cuts = append(cuts, c)
+			}
+		}
+		for _, cut := range cuts {
+			checkPullReadback(r, hl, cut)
+			nPull++
+		}
+	}
+	r.Cov("pull_readback_cases", nPull)
+
 	maxSeq := 4
 	if r.Quick() {
 		maxSeq = 3
@@ -431,3 +453,91 @@ func main() {
 	})
 	r.Finish()
 }
+
+// checkPullReadback: httpflv.PullSession must hand back exactly the tags of a valid HTTP-FLV response
+// whose header block is hdrLen bytes long; cut > 0 splits the response into two writes at that offset.
+func checkPullReadback(r *vk.Run, hdrLen, cut int) {
+	r.Eval(1)
+	head := "HTTP/1.1 200 OK\r\nContent-Type: video/x-flv\r\nConnection: close\r\nX-Pad: "
+	tail := "\r\n\r\n"
+	if hdrLen < len(head)+len(tail) {
+		return
+	}
+	resp := []byte(head + strings.Repeat("p", hdrLen-len(head)-len(tail)) + tail)
+	seq := []tagCase{{18, 30, 0}, {9, 45, 0}, {8, 7, 23}, {9, 300, 40}, {8, 1, 0x1000005}}
+	tags, want := flvStreamOf(seq)
+	resp = append(resp, 'F', 'L', 'V', 1, 5, 0, 0, 0, 9, 0, 0, 0, 0)
+	for _, t := range tags {
+		resp = append(resp, t.Raw...)
+	}
+	cli, srv := net.Pipe()
+	httpflv.VerifDialFn = nil
+	// (net.Pipe refuses SetReadDeadline once the remote end has closed, which a TCP socket does not:
+	// deadlines are made no-ops)
+	dial := func(network, addr string) (net.Conn, error) { return noDeadline{cli}, nil }
+	go func() {
+		br := bufio.NewReader(srv)
+		for { // the request
+			l, err := br.ReadString('\n')
+			if err != nil || l == "\r\n" {
+				break
+			}
+		}
+		if cut > 0 && cut < len(resp) {
+			srv.Write(resp[:cut])
+			srv.Write(resp[cut:])
+		} else {
+			srv.Write(resp)
+		}
+		srv.Close()
+	}()
+	var got []ref.FlvTag
+	var mu sync.Mutex
+	s := httpflv.NewPullSession(func(o *httpflv.PullSessionOption) { o.PullTimeoutMs = 5000; o.ReadTimeoutMs = 5000 })
+	pullDialMu.Lock()
+	httpflv.VerifDialFn = dial
+	err := s.Pull("http://origin.invalid/live/s.flv", func(tag httpflv.Tag) {
+		mu.Lock()
+		got = append(got, ref.FlvTag{Type: tag.Header.Type, Ts: tag.Header.Timestamp, Payload: append([]byte{}, tag.Payload()...)})
+		mu.Unlock()
+	})
+	httpflv.VerifDialFn = nil
+	pullDialMu.Unlock()
+	rp := replay{Kind: "pull", Seq: seq}
+	desc := fmt.Sprintf("response header of %d bytes, split at %d", hdrLen, cut)
+	r.Class(fmt.Sprintf("pull/hdr%%256=%d/cut=%v", hdrLen%256/32, cut > 0))
+	if err != nil {
+		r.Violation("pull-readback/start", fmt.Sprintf("%s: Pull returned %v", desc, err), rp)
+		return
+	}
+	select {
+	case <-s.WaitChan():
+	case <-time.After(20 * time.Second):
+		r.Violation("pull-readback/hang", desc+": the pull session did not end after the peer closed", rp)
+		return
+	}
+	mu.Lock()
+	defer mu.Unlock()
+	if len(got) != len(want) {
+		var gt []string
+		for _, g := range got {
+			gt = append(gt, fmt.Sprintf("%d/%d/%d", g.Type, g.Ts, len(g.Payload)))
+		}
+		r.Violation("pull-readback/tags", fmt.Sprintf("%s: lal's pull client called back %d tags %v, the response holds %d", desc, len(got), gt, len(want)), rp)
+		return
+	}
+	for i := range got {
+		if !sameTag(got[i], want[i]) {
+			r.Violation("pull-readback/tags", fmt.Sprintf("%s: tag %d read back as type %d ts %d len %d, sent type %d ts %d len %d", desc, i, got[i].Type, got[i].Ts, len(got[i].Payload), want[i].Type, want[i].Ts, len(want[i].Payload)), rp)
+			return
+		}
+	}
+}
+
+var pullDialMu sync.Mutex
+
+type noDeadline struct{ net.Conn }
+
+func (noDeadline) SetDeadline(time.Time) error      { return nil }
+func (noDeadline) SetReadDeadline(time.Time) error  { return nil }
+func (noDeadline) SetWriteDeadline(time.Time) error { return nil }
